@@ -46,8 +46,26 @@ def bidi_class_oracle(prog):
     return h
 
 
+def class_masks(prog, names):
+    """class name -> bytearray mask over all code points, from the folded BIDI_CLASS_TABLE (default L)."""
+    from .. import tables, ucd
+
+    tabs, _ = tables.all_tables(prog)
+    rows = tabs.get(ts.P + "bidi::BIDI_CLASS_TABLE")
+    if rows is None:
+        return None
+    cls_of = ["L"] * (ucd.MAXCP + 1)
+    for lo, hi, v in rows:
+        for cp in range(lo, min(hi, ucd.MAXCP) + 1):
+            cls_of[cp] = v
+    return cls_of
+
+
 def has_rtl_set(prog, rep):
-    """(b) which classes make has_rtl true: run the find-predicate closure on each class."""
+    """(b) has_rtl(label) = some character of the label has class R, AL or AN — decided per code point: the
+    find-predicate is run on a symbolic character; each path fixes an interval set for the character (its
+    comparisons with constants) and at most one answer of bidi_class; for every code point of the path that
+    has that class in the folded table the returned boolean must be `class in {R, AL, AN}`."""
     key = BIDI + "has_rtl"
     b = prog.body(key)
     if b is None:
@@ -55,34 +73,72 @@ def has_rtl_set(prog, rep):
         return None
     rep.fn(key)
     names = class_names(prog)
-    accepted = set()
+
+    def cls_oracle(m, st, callee, args, term):
+        c = args[0]
+        if not (isinstance(c, ip.Sym) and c.name == "arg"):
+            raise ip.AnalysisError("bidi_class of %r (not the character under test)" % (c,))
+        k = st.choose(("cls",), names)
+        return ip.Adt(BIDICLASS, names.index(k), ())
 
     class W(OracleWorld):
         def str_find(self, m, st, s, pred):
-            # find(pred) is Some iff pred holds for some char: evaluate pred on the class under test
-            cls = st.ext["cls"]
+            # find(pred) is Some iff pred holds for some character of the label: evaluate pred on one
             from ..models import _with_post
 
-            return _with_post(m, st, pred, [au.ch(0, cls)], {"dest": {"l": 0, "p": []}, "target": None, "span": {}}, lambda mm, ss, v: ip.some(ip.Sym(("pos",), "usize")) if mm.truth(ss, v) else ip.none())
+            return _with_post(m, st, pred, [ip.Sym("arg", "char")], {"dest": {"l": 0, "p": []}, "target": None, "span": {}}, lambda mm, ss, v: ip.some(ip.Sym(("pos",), "usize")) if mm.truth(ss, v) else ip.none())
 
-    w = W(prog, {BIDI + "bidi_class": bidi_class_oracle(prog)})
-    m = ip.Machine(prog, w)
-    for cls in names:
-        st = m.start(key, [Str(("label",))])
-        st.ext["cls"] = cls
-        try:
-            outs = m.run(st)
-        except ip.AnalysisError as e:
-            # not the `find(pred).is_some()` shape: extract has_rtl as an automaton over the label instead
-            return has_rtl_automaton(prog, rep, b, names, e)
-        if len(outs) != 1 or not isinstance(outs[0].value, ip.I):
-            rep.ob("has-rtl", cls, False, "not a single boolean outcome")
+        def cast_hook(self, st, v, from_ty, to_ty):
+            if isinstance(v, ip.Sym) and v.name == "arg":
+                return ip.Sym("arg", to_ty)
             return None
-        if outs[0].value.v:
-            accepted.add(cls)
-    rep.ob("has-rtl", "RTL detection set", accepted == set(bs.RTLSET), "has_rtl is true for a label consisting of a character of class %s; RFC 5893: %s" % (sorted(accepted), sorted(bs.RTLSET)), b.where(), key="has-rtl|set", sample=True)
-    # has_rtl must be an existential over the label: find(..).is_some() — the shape is checked by the world
-    return accepted
+
+    w = W(prog, {BIDI + "bidi_class": cls_oracle})
+    m = ip.Machine(prog, w)
+    try:
+        outs = m.run(m.start(key, [Str(("label",))]))
+    except ip.AnalysisError as e:
+        # not the `find(pred).is_some()` shape: extract has_rtl as an automaton over the label instead
+        return has_rtl_automaton(prog, rep, b, names, e)
+    cls_of = class_masks(prog, names)
+    if cls_of is None:
+        rep.ob("has-rtl", "BIDI_CLASS_TABLE folded", False, "table not available")
+        return None
+    accepted = set()
+    bad = None
+    covered = bytearray(0x110000)
+    for o in outs:
+        if o.kind != "return" or not isinstance(o.value, ip.I):
+            bad = "a path ends with %s %r" % (o.kind, o.value)
+            break
+        res = bool(o.value.v)
+        cls = o.state.facts.get(("cls",))
+        other = [k for k, v in o.state.log if isinstance(k, tuple) and k[0] in ("ord", "bool")]
+        if other:
+            bad = "the result depends on %r, not only on the character and its class" % (other[0],)
+            break
+        for lo, hi in ip.rng_get(o.state, ip.Sym("arg", "char")):
+            for cp in range(max(lo, 0), min(hi, 0x10FFFF) + 1):
+                if cls is not None and cls_of[cp] != cls:
+                    continue
+                covered[cp] = 1
+                if res:
+                    accepted.add(cls_of[cp])
+                if res != (cls_of[cp] in bs.RTLSET):
+                    bad = "U+%04X (class %s): has_rtl's test answers %s" % (cp, cls_of[cp], res)
+                    break
+            if bad:
+                break
+        if bad:
+            break
+    if bad is None:
+        miss = covered.find(0)
+        if miss != -1 and not 0xD800 <= miss <= 0xDFFF:
+            bad = "no path covers U+%04X" % miss
+    rep.ob("has-rtl", "has_rtl's test = class in {R, AL, AN}, for every code point", bad is None, bad or "", b.where(), key="has-rtl|exact", sample=True)
+    present = {c for c in set(cls_of)}
+    rep.ob("has-rtl", "RTL detection set", bad is not None or accepted == set(bs.RTLSET) & present, "has_rtl is true for a label consisting of a character of class %s; RFC 5893: %s" % (sorted(accepted), sorted(bs.RTLSET)), b.where(), key="has-rtl|set", sample=True)
+    return set(bs.RTLSET) if bad is None else None
 
 
 def has_rtl_automaton(prog, rep, b, names, first_error):
@@ -292,16 +348,24 @@ def lookup_default(prog, rep):
     except ip.AnalysisError as e:
         rep.analysis_error("lookup", key, e, b.where())
         return
-    res = {}
     names = class_names(prog)
-    for o in outs:
-        br = [v for k, v in o.state.log if k[0] == "bsearch"]
-        if o.kind != "return":
-            res[tuple(br)] = o.kind
-        elif isinstance(o.value, ip.Adt):
-            res[tuple(br)] = names[o.value.variant]
-        elif isinstance(o.value, ip.Sym):
-            res[tuple(br)] = "table-row-value"
-        else:
-            res[tuple(br)] = repr(o.value)
-    rep.ob("lookup", "bidi_class_cp: found ⇒ the row's class, not found ⇒ L", res == {("Ok",): "table-row-value", ("Err",): "L"} and not w.findings, "extracted %s %s" % (res, [f["detail"] for f in w.findings][:2]), b.where(), key="lookup|default")
+    from .. import tables
+
+    tabs, _ = tables.all_tables(prog)
+    rows = tabs.get(ts.P + "bidi::BIDI_CLASS_TABLE")
+    if rows is None:
+        rep.ob("lookup", "bidi_class_cp", False, "BIDI_CLASS_TABLE not folded", b.where(), key="lookup|default")
+        return
+
+    def decode(o):
+        v = o.value
+        if isinstance(v, ip.Adt) and v.ty == BIDICLASS:
+            return ("const", names[v.variant])
+        if isinstance(v, ip.Sym):
+            return ("row",)
+        return ("other", repr(v))
+
+    err = common.exact_lookup(outs, "cp", "u32", rows, "L", decode)
+    if err is None and w.findings:
+        err = "; ".join(f["detail"] for f in w.findings[:2])
+    rep.ob("lookup", "bidi_class_cp(cp) = the table's class of cp, L when not listed — for every code point (%d paths)" % len(outs), err is None, err or "", b.where(), key="lookup|default", sample=True)
